@@ -265,7 +265,7 @@ def run_lines(exe_cmd, lines, timeout=600, env=None, chunk=None):
     return out, p.returncode, err
 
 
-def run_lines_parallel(exe_cmd, lines, jobs=None, timeout=900, env=None):
+def run_lines_parallel(exe_cmd, lines, jobs=None, timeout=900, env=None, single_timeout=30, max_hangs=4):
     """Split the case list over several processes (order preserved).  A
     process that dies yields 'CRASH <rc> <summary>' for the case it died in
     and the remaining cases of its shard are re-run one by one."""
@@ -287,12 +287,17 @@ def run_lines_parallel(exe_cmd, lines, jobs=None, timeout=900, env=None):
                 # find the hanging case by running singly
                 out, rc, err = [], -9, "TIMEOUT"
                 single = []
+                hangs = 0
                 for l in ls[pos:]:
+                    if hangs >= max_hangs:
+                        single.append("SKIPPED after %d hangs in this shard" % hangs)
+                        continue
                     try:
-                        o, r, e2 = run_lines(exe_cmd, [l], timeout=30, env=env)
+                        o, r, e2 = run_lines(exe_cmd, [l], timeout=single_timeout, env=env)
                         single.append(o[0] if o and r == 0 else "CRASH %d %s" % (r, crash_summary(e2)))
                     except subprocess.TimeoutExpired:
                         single.append("HANG")
+                        hangs += 1
                 res.extend(single)
                 pos = len(ls)
                 break
